@@ -286,6 +286,11 @@ func genEnv(rt *rapid.T, realShare int) (osName string, running bool, mode strin
 	osName = oneOf(rt, []string{"linux", "linux", "linux", "linux", "linux", "linux", "windows", "windows", "mac", "mac"}, "os")
 	running = rapid.Bool().Draw(rt, "running")
 	mode = "sim"
+	if osName == "windows" && realShare < 25 {
+		// dotnet/pe only gets to parse a PE file on a real directory (through a virtual root its
+		// temporary copy lacks the two magic bytes it has already consumed)
+		realShare = 25
+	}
 	if chance(rt, realShare, "mode") {
 		mode = "real"
 	}
